@@ -44,6 +44,17 @@ pub trait MemTable: Send + Sync {
 pub(crate) struct SkipListMemTable {
     /// The actual skip list backing the memtable.
     store: Arc<ConcurrentSkipList<InternalKey, Vec<u8>>>,
+
+    /**
+    Lock ordering the single writer against readers of the skip list.
+
+    The skip list links a new node into the upper levels before the lower ones and grows the head
+    tower in place, so a traversal that runs concurrently with an insert can miss entries that were
+    inserted long before. Traversals take the lock shared, inserts take it exclusively. Entries are
+    never removed while the memtable is alive, so references handed out stay valid after the lock
+    is released.
+    */
+    lock: Arc<parking_lot::RwLock<()>>,
 }
 
 /// Public methods
@@ -52,6 +63,7 @@ impl SkipListMemTable {
     pub fn new() -> Self {
         Self {
             store: Arc::new(ConcurrentSkipList::new(None)),
+            lock: Arc::new(parking_lot::RwLock::new(())),
         }
     }
 }
@@ -66,6 +78,7 @@ impl MemTable for SkipListMemTable {
         SAFETY:
         RainDB enforces that there is only a single writer adding to the memtable at a time.
         */
+        let _write_guard = self.lock.write();
         unsafe { self.store.insert_with_size(key, value) }
     }
 
@@ -76,6 +89,7 @@ impl MemTable for SkipListMemTable {
         let mut iter = self.iter();
         iter.seek(key).unwrap();
 
+        let _read_guard = self.lock.read();
         if iter.is_valid() {
             // We only need to check the user key since the call to `seek()` above should have
             // skipped sequence numbers more recent than we want
@@ -92,8 +106,10 @@ impl MemTable for SkipListMemTable {
     }
 
     fn iter(&self) -> Box<dyn RainDbIterator<Key = InternalKey, Error = RainDBError>> {
+        let _read_guard = self.lock.read();
         Box::new(SkipListMemTableIter {
             store: Arc::clone(&self.store),
+            lock: Arc::clone(&self.lock),
             current_entry: self.store.first_node().map(|node| {
                 let (key, value) = node.get_entry();
                 (key.clone(), value.clone())
@@ -124,6 +140,9 @@ struct SkipListMemTableIter {
     /// A reference to the skip list backing the memtable.
     store: Arc<ConcurrentSkipList<InternalKey, Vec<u8>>>,
 
+    /// The lock ordering traversals against inserts. See [`SkipListMemTable::lock`].
+    lock: Arc<parking_lot::RwLock<()>>,
+
     /// The key-value pair that was found last.
     current_entry: Option<(InternalKey, Vec<u8>)>,
 }
@@ -146,6 +165,7 @@ impl RainDbIterator for SkipListMemTableIter {
     }
 
     fn seek(&mut self, target: &Self::Key) -> Result<(), Self::Error> {
+        let _read_guard = self.lock.read();
         self.current_entry = self
             .store
             .find_greater_or_equal_node(target)
@@ -155,6 +175,7 @@ impl RainDbIterator for SkipListMemTableIter {
     }
 
     fn seek_to_first(&mut self) -> Result<(), Self::Error> {
+        let _read_guard = self.lock.read();
         self.current_entry = self
             .store
             .first_node()
@@ -164,6 +185,7 @@ impl RainDbIterator for SkipListMemTableIter {
     }
 
     fn seek_to_last(&mut self) -> Result<(), Self::Error> {
+        let _read_guard = self.lock.read();
         self.current_entry = self
             .store
             .last_node()
@@ -177,12 +199,15 @@ impl RainDbIterator for SkipListMemTableIter {
             return None;
         }
 
-        self.current_entry = self.current_entry.take().and_then(|(key, _value)| {
-            self.store
-                .find_greater_or_equal_node(&key)
-                .and_then(|node| node.next())
-                .map(SkipListMemTableIter::owned_entry_from_node)
-        });
+        {
+            let _read_guard = self.lock.read();
+            self.current_entry = self.current_entry.take().and_then(|(key, _value)| {
+                self.store
+                    .find_greater_or_equal_node(&key)
+                    .and_then(|node| node.next())
+                    .map(SkipListMemTableIter::owned_entry_from_node)
+            });
+        }
         self.current()
     }
 
@@ -201,10 +226,13 @@ impl RainDbIterator for SkipListMemTableIter {
         }
 
         let (curr_key, _) = self.current_entry.take().unwrap();
-        self.current_entry = self
-            .store
-            .find_less_than_node(&curr_key)
-            .map(SkipListMemTableIter::owned_entry_from_node);
+        {
+            let _read_guard = self.lock.read();
+            self.current_entry = self
+                .store
+                .find_less_than_node(&curr_key)
+                .map(SkipListMemTableIter::owned_entry_from_node);
+        }
         self.current()
     }
 
